@@ -191,6 +191,62 @@ Proof.
   - intros ob' h' Hn. split; [|intros k']; (apply F; [|reflexivity]); unfold independent; simpl; congruence.
 Qed.
 
+(* add <obj>.http.<h> = E;  changes at most that header (and its views) *)
+Theorem add_frame n fn o h e σ out σ' :
+  wf σ -> pure e = true -> exec repaired Os P n fn (SAdd o h e) σ = OK (out, σ') ->
+  forall x, independent x (NHeader o h) -> is_group x = false -> read σ' x = read σ x.
+Proof.
+  intros W Hp H x HxT Hx. destruct n as [|n]; [discriminate|]. simpl in H.
+  destruct (valid_stmt_expr TStr e); [|discriminate].
+  bind_inv H as [r σ1] H1. bind_inv H as rv Hrv. inversion H; subst.
+  rewrite <- (eval_frame _ _ _ _ _ _ W Hp H1 x Hx).
+  destruct (hget (o, h) (hdrs σ1)); auto. destruct (render Os rv) as [|b0 l0]; auto.
+  apply (read_set_hdrs_other o h); auto. intros; apply hget_hset_other; auto.
+Qed.
+
+(* error [code [response]];  the documented implicit writes: ctx.ObjectStatus and ctx.ObjectResponse
+   (cells gs, gr) - everything else keeps its value (re.group.N aside when code / response match) *)
+Theorem error_frame n fn ok gs gr code arg σ out σ' :
+  wf σ -> (forall e, code = Some e -> pure e = true) -> (forall e, arg = Some e -> pure e = true) ->
+  exec repaired Os P n fn (SError ok gs gr code arg) σ = OK (out, σ') ->
+  out = OState st_error /\
+  forall x, x <> NGlobal gs -> x <> NGlobal gr -> is_group x = false -> read σ' x = read σ x.
+Proof.
+  intros W Hc Ha H. destruct n as [|n]; [discriminate|]. simpl in H.
+  destruct (negb fn && negb ok); [discriminate|].
+  bind_inv H as σ1 H1. bind_inv H as σ2 H2. inversion H; subst. split; auto.
+  destruct (all_good Os P n) as (Ge & _ & _).
+  assert (K : forall (oe : option expr) g σa σb, wf σa -> (forall e, oe = Some e -> pure e = true) ->
+            match oe with
+            | None => OK σa
+            | Some e => do (r, σm) <- eval repaired Os P n dflt_mode e σa;
+                        match lookup g (globals σm) with
+                        | Some l => assign_cell Os false l AEq r σm
+                        | None => Crash
+                        end
+            end = OK σb ->
+            wf σb /\ forall x, x <> NGlobal g -> is_group x = false -> read σb x = read σa x).
+  { intros [e|] g σa σb Wa Hpe Hx.
+    - bind_inv Hx as [r σm] Hm. pose proof (Hpe e eq_refl) as Hp.
+      destruct (Ge dflt_mode _ _ _ _ Wa Hm) as (E1 & _ & W1 & _).
+      destruct (lookup g (globals σm)) as [l|] eqn:El; [|discriminate].
+      unfold assign_cell in Hx. bind_inv Hx as a1 Ha1. bind_inv Hx as a2 Ha2. bind_inv Hx as a3 Ha3.
+      inversion Hx; subst. split; [apply wf_write; auto|].
+      intros x Hxg Hxr. rewrite <- (eval_frame _ _ _ _ _ _ Wa Hp Hm x Hxr).
+      apply (read_write_other σm (NGlobal g)); auto.
+    - inversion Hx; subst. auto. }
+  destruct (K _ _ _ _ W Hc H1) as (W1 & F1). destruct (K _ _ _ _ W1 Ha H2) as (W2 & F2).
+  intros x X1 X2 X3. rewrite F2, F1; auto.
+Qed.
+
+(* restart; touches nothing (req.restarts changes only when the request is processed again) *)
+Theorem restart_frame n fn ok σ out σ' :
+  exec repaired Os P n fn (SRestart ok) σ = OK (out, σ') -> out = OState st_restart /\ σ' = σ.
+Proof.
+  intros H. destruct n as [|n]; [discriminate|]. simpl in H.
+  destruct (fn || ok); inversion H; auto.
+Qed.
+
 (* unset of a header or of a sub-field: the same frame *)
 Theorem unset_frame n fn T σ o σ' :
   exec repaired Os P n fn (SUnset T) σ = OK (o, σ') ->
